@@ -47,6 +47,7 @@ type Datum struct {
 	Sym   string
 	List  []*Datum
 	IsLst bool
+	IsFlt bool // the float I/2 (0.0, 0.5, -1.5 ..)
 }
 
 type Node struct {
@@ -81,6 +82,12 @@ func Break(label string) *Node    { return &Node{K: KBreak, Name: label} }
 func Cont(label string) *Node     { return &Node{K: KCont, Name: label} }
 func QuoteSym(s string) *Node     { return &Node{K: KQuote, D: &Datum{Sym: s}} }
 func Quote(d *Datum) *Node        { return &Node{K: KQuote, D: d} }
+
+// Flt is the float literal h/2, written bare in the source (0.0, 1.5, -2.5); the model reads it as the
+// quoted datum %f<h>.
+func Flt(h int64) *Node { return &Node{K: KQuote, D: &Datum{IsFlt: true, I: h}} }
+
+func fltText(h int64) string { return strconv.FormatFloat(float64(h)/2, 'f', 1, 64) }
 func Call(f *Node, args ...*Node) *Node {
 	return &Node{K: KCall, Kids: append([]*Node{f}, args...)}
 }
@@ -197,6 +204,8 @@ func (d *Datum) prefix(sb *strings.Builder) {
 			x.prefix(sb)
 		}
 		sb.WriteString(")")
+	case d.IsFlt:
+		fmt.Fprintf(sb, "%%f%d", d.I)
 	case d.IsInt:
 		sb.WriteString(strconv.FormatInt(d.I, 10))
 	default:
@@ -365,6 +374,8 @@ func (d *Datum) render(r *renderer) {
 			x.render(r)
 		}
 		r.t(")")
+	case d.IsFlt:
+		r.t(fltText(d.I))
 	case d.IsInt:
 		r.t(strconv.FormatInt(d.I, 10))
 	default:
@@ -411,6 +422,10 @@ func (n *Node) render(r *renderer) {
 	case KStr:
 		r.t(quoteStr(n.S))
 	case KQuote:
+		if n.D.IsFlt {
+			r.t(fltText(n.D.I)) // a float literal evaluates to itself
+			return
+		}
 		r.t("(")
 		r.t("quote")
 		n.D.render(r)
